@@ -48,6 +48,7 @@ type NamedVal struct {
 }
 
 type Frame struct {
+	unrolling  bool // executing inside a loop that is unrolled (blocks may run several times per path)
 	id         int
 	fn         *ssa.Function
 	env        map[ssa.Value]SVal
@@ -67,6 +68,7 @@ type Frame struct {
 }
 
 type Exec struct {
+	depOf      string // non-empty: verified as a dependency of this property (all clauses; findings of any property apply)
 	bbFresh    map[string]bool
 	curBVars   []*Term // bound variables of the quantifier bodies being evaluated (for assumeQ)
 	shared     map[string]bool
@@ -1101,6 +1103,58 @@ func (x *Exec) newArrayObjectInto(st *State, o *Object, name string) {
 	x.makeNested(st, o, name, o.Pre, false, 0)
 }
 
+const maxUnroll = 64
+
+// constBoundLoop: the header ends in `if i < C` / `if i+1 < C` over a phi of the header, with a constant C <= maxUnroll.
+func constBoundLoop(b *ssa.BasicBlock) bool {
+	if len(b.Instrs) == 0 {
+		return false
+	}
+	ifi, ok := b.Instrs[len(b.Instrs)-1].(*ssa.If)
+	if !ok {
+		return false
+	}
+	cmp, ok := ifi.Cond.(*ssa.BinOp)
+	if !ok || cmp.Op != token.LSS {
+		return false
+	}
+	c, ok := cmp.Y.(*ssa.Const)
+	if !ok || c.Value == nil || c.Int64() < 0 || c.Int64() > maxUnroll {
+		return false
+	}
+	isPhi := func(v ssa.Value) bool {
+		p, ok := v.(*ssa.Phi)
+		return ok && p.Block() == b
+	}
+	if isPhi(cmp.X) {
+		p := cmp.X.(*ssa.Phi)
+		// counting loop: edges 0-ish constant and phi+1
+		for _, e := range p.Edges {
+			if bo, isB := e.(*ssa.BinOp); isB && bo.Op == token.ADD && bo.X == p {
+				if k, isC := bo.Y.(*ssa.Const); isC && k.Value != nil && k.Int64() == 1 {
+					for _, e2 := range p.Edges {
+						if k2, isC2 := e2.(*ssa.Const); isC2 && k2.Value != nil && k2.Int64() >= 0 {
+							return true
+						}
+					}
+				}
+			}
+		}
+		return false
+	}
+	if bo, isB := cmp.X.(*ssa.BinOp); isB && bo.Op == token.ADD && isPhi(bo.X) && bo.Block() == b {
+		if k, isC := bo.Y.(*ssa.Const); isC && k.Value != nil && k.Int64() == 1 {
+			p := bo.X.(*ssa.Phi)
+			for _, e := range p.Edges {
+				if k2, isC2 := e.(*ssa.Const); isC2 && k2.Value != nil && k2.Int64() >= -1 {
+					return true
+				}
+			}
+		}
+	}
+	return false
+}
+
 func (x *Exec) runBlock(fr *Frame, b *ssa.BasicBlock, pred *ssa.BasicBlock, st *State, k cont) {
 	if x.aborted != "" {
 		return
@@ -1123,7 +1177,24 @@ func (x *Exec) runBlock(fr *Frame, b *ssa.BasicBlock, pred *ssa.BasicBlock, st *
 			phiVals[phi] = x.value(fr, st, phi.Edges[pi])
 		}
 	}
-	if ord, isHeader := fr.headers[b]; isHeader {
+	if ord, isHeader := fr.headers[b]; isHeader && x.loopContract(fr, ord) == nil && constBoundLoop(b) {
+		// a loop without a loop contract whose trip count is a compile-time constant (range over an array, counting
+		// loop to a constant): unrolled path-wise instead of cut, so a loop moved into a new helper function, or a small
+		// new constant loop, needs no invariant.  Exact; the visit bound only guards the engine.
+		key := fmt.Sprintf("%d:%d", fr.id, b.Index)
+		if st.visits == nil {
+			st.visits = map[string]int{}
+		}
+		st.visits[key]++
+		if st.visits[key] > maxUnroll+1 {
+			x.aborted = fmt.Sprintf("%s: loop %d has no invariant and did not exit within %d unrolled iterations", fr.fn.Name(), ord, maxUnroll)
+			return
+		}
+		fr.unrolling = true
+		for phi, v := range phiVals {
+			fr.env[phi] = v
+		}
+	} else if ord, isHeader := fr.headers[b]; isHeader {
 		key := fmt.Sprintf("%d:%d", fr.id, b.Index)
 		lc := x.loopContract(fr, ord)
 		if st.cuts[key] {
@@ -1252,7 +1323,26 @@ func (x *Exec) runInstrs(fr *Frame, b *ssa.BasicBlock, i int, st *State, k cont)
 			}
 			st2 := st.Clone()
 			st.Assume(c)
+			var envSnap map[ssa.Value]SVal
+			if fr.unrolling {
+				// inside an unrolled loop blocks are executed more than once per path: the first branch may overwrite
+				// values the second one still needs
+				envSnap = make(map[ssa.Value]SVal, len(fr.env))
+				for kk, vv := range fr.env {
+					envSnap[kk] = vv
+				}
+			}
 			x.runBlock(fr, b.Succs[0], b, st, k)
+			if envSnap != nil {
+				for kk := range fr.env {
+					if _, had := envSnap[kk]; !had {
+						delete(fr.env, kk)
+					}
+				}
+				for kk, vv := range envSnap {
+					fr.env[kk] = vv
+				}
+			}
 			st2.Assume(x.tb.Not(c))
 			x.runBlock(fr, b.Succs[1], b, st2, k)
 			return
